@@ -25,6 +25,8 @@ type PNode struct {
 	Pair   [2]PLeaf
 	ByKey  map[string]PNode
 	ByNum  map[int]*PNode
+	ByU8   map[uint8]string
+	ByI8   map[int8]*PNode
 	Any    interface{}
 	hidden string
 }
@@ -53,6 +55,7 @@ func buildNode(r *core.Rng, path string, depth int) PNode {
 	n.Tags = []string{path + ".Tags[0]", path + ".Tags[1]"}
 	n.Attr = map[string]string{"k0": path + `.Attr["k0"]`, "k1": path + `.Attr["k1"]`}
 	n.Pair = [2]PLeaf{{path + ".Pair[0].S"}, {path + ".Pair[1].S"}}
+	n.ByU8 = map[uint8]string{44: path + ".ByU8[44]", 5: path + ".ByU8[5]"}
 	if depth <= 0 {
 		return n
 	}
@@ -85,6 +88,11 @@ func buildNode(r *core.Rng, path string, depth int) PNode {
 	if r.Chance(1, 6) {
 		n.ByNum[2] = nil
 	}
+	n.ByI8 = map[int8]*PNode{}
+	for _, k := range []int8{-56, 3} {
+		c := buildNode(r, fmt.Sprintf("%s.ByI8[%d]", path, k), depth-1)
+		n.ByI8[k] = &c
+	}
 	return n
 }
 
@@ -97,6 +105,10 @@ type pStep struct {
 	idx  int    // index / int key / method argument
 	key  string // string key
 	harg bool   // method has an int argument
+	// narrow: an int index into a map keyed by a narrower integer type; a
+	// successful lookup is not judged (whether 5 may address a uint8 key is
+	// not settled by the property), a failing one must fail
+	narrow bool
 }
 
 var (
@@ -119,7 +131,7 @@ func stepsFrom(t reflect.Type) []pStep {
 	}
 	switch {
 	case t == tNode || t == tPNode:
-		for _, f := range []string{"Name", "Tags", "Attr", "Kids", "PKids", "Next", "Pair", "ByKey", "ByNum", "Any", "hidden", "Missing"} {
+		for _, f := range []string{"Name", "Tags", "Attr", "Kids", "PKids", "Next", "Pair", "ByKey", "ByNum", "ByU8", "ByI8", "Any", "hidden", "Missing"} {
 			out = append(out, pStep{kind: "F", name: f, src: "." + f})
 		}
 		for _, m := range []string{"Self", "PSelf", "GetTags", "Label", "PLabel", "Nope"} {
@@ -136,6 +148,11 @@ func stepsFrom(t reflect.Type) []pStep {
 		}
 	case t.Kind() == reflect.Map && t.Key().Kind() == reflect.String:
 		out = append(out, pStep{kind: "K", src: `["k0"]`, key: "k0"}, pStep{kind: "K", src: `["k1"]`, key: "k1"}, pStep{kind: "K", src: "[key0]", key: "k0"}, pStep{kind: "K", src: `["zz"]`, key: "zz"})
+	case t.Kind() == reflect.Map && t.Key().Kind() == reflect.Uint8:
+		// an int index never addresses another key by wrapping around: 300 is not 44
+		out = append(out, pStep{kind: "K", src: "[5]", idx: 5, narrow: true}, pStep{kind: "K", src: "[300]", idx: 300, narrow: true}, pStep{kind: "K", src: "[i300]", idx: 300, narrow: true}, pStep{kind: "K", src: "[7]", idx: 7, narrow: true}, pStep{kind: "K", src: "[0 - 212]", idx: -212, narrow: true})
+	case t.Kind() == reflect.Map && t.Key().Kind() == reflect.Int8:
+		out = append(out, pStep{kind: "K", src: "[3]", idx: 3, narrow: true}, pStep{kind: "K", src: "[200]", idx: 200, narrow: true}, pStep{kind: "K", src: "[i200]", idx: 200, narrow: true}, pStep{kind: "K", src: "[7]", idx: 7, narrow: true})
 	case t.Kind() == reflect.Map && t.Key().Kind() == reflect.Int:
 		out = append(out, pStep{kind: "K", src: "[1]", idx: 1}, pStep{kind: "K", src: "[i1]", idx: 1}, pStep{kind: "K", src: "[2]", idx: 2}, pStep{kind: "K", src: "[9]", idx: 9})
 	case t == reflect.TypeOf(PLeaf{}):
@@ -210,9 +227,20 @@ func pathNav(root reflect.Value, steps []pStep) (reflect.Value, bool) {
 				return v, false
 			}
 			var k reflect.Value
-			if v.Type().Key().Kind() == reflect.String {
+			switch v.Type().Key().Kind() {
+			case reflect.String:
 				k = reflect.ValueOf(s.key)
-			} else {
+			case reflect.Uint8:
+				if s.idx < 0 || s.idx > 255 {
+					return v, false
+				}
+				k = reflect.ValueOf(uint8(s.idx))
+			case reflect.Int8:
+				if s.idx < -128 || s.idx > 127 {
+					return v, false
+				}
+				k = reflect.ValueOf(int8(s.idx))
+			default:
 				k = reflect.ValueOf(s.idx)
 			}
 			e := v.MapIndex(k)
@@ -287,6 +315,8 @@ func c11Ctx(g *c11Graph) *plush.Context {
 	ctx.Set("i0", 0)
 	ctx.Set("i1", 1)
 	ctx.Set("ibig", 7)
+	ctx.Set("i300", 300)
+	ctx.Set("i200", 200)
 	ctx.Set("key0", "k0")
 	return ctx
 }
@@ -337,6 +367,13 @@ func c11Judge(b *core.B, g *c11Graph, p c11Path, use int) {
 	want := ""
 	judgeable := false
 	if ok {
+		for _, st := range p.steps {
+			if st.narrow {
+				b.Count("narrow-int-key-lookup-succeeds(not-judged)")
+				b.Abstain()
+				return
+			}
+		}
 		switch use {
 		case 3:
 			if v.Kind() == reflect.Slice && v.Type().Elem().Kind() == reflect.String {
